@@ -578,7 +578,17 @@ func secondsWindow(ep *Endpoint, w Win) Win {
 // apart when both explain one literal).
 func explainMiss(c *Cell, ep *Endpoint, it *Item, stmts []StmtRec, resp Resp, sqlErr string, rerun func(Win) []StmtRec, owed []*Item, missing func(*Item) bool) (string, string) {
 	w := c.Win
+	far := func(tw [2]int64, ts int64) bool { return ts < tw[0]-3600e9 || ts > tw[1]+3600e9 }
 	for si, s := range stmts {
+		// a request may read several windows (PromQL selectors with offsets): a statement whose own timestamp window
+		// (for a label fetch: that of the data statement before it) is hours away from the datum never owed it
+		tw, ok := tsWindow(s.SQL)
+		if !ok && si > 0 && labelFetchRe.MatchString(s.SQL) {
+			tw, ok = tsWindow(stmts[si-1].SQL)
+		}
+		if ok && far(tw, it.Ts) && (it.Extra == 0 || far(tw, it.Extra)) {
+			continue
+		}
 		for _, pass := range []string{"index", "data"} {
 			for _, sc := range s.Scans {
 				base := baseName(sc.Table)
